@@ -9,15 +9,15 @@ import random
 from .. import core, traces, tlc
 
 RULES_OF = {
-    "C01": {"use-before-def", "topological", "complete", "unknown-statement"},
+    "C01": {"use-before-def", "topological", "complete"},
     "C02": None,   # every rule, backend c
     "C03": None,   # every rule, backend jax
-    "C04": {"unpack-slot", "store-slot", "store-twice", "lengths-stored", "lengths-returned", "store-before-alloc", "layout-from-sort", "return-order"},
+    "C04": {"unpack-slot", "store-slot", "store-twice", "lengths-stored", "lengths-returned", "store-before-alloc"},
     "C05": {"store-slot", "store-twice", "lengths-stored"},
     "C06": {"scheme-guard", "scheme-choice", "store-slot"},
     "C07": {"scheme-choice", "scheme-guard", "store-slot"},
-    "C12": {"use-before-def", "unpack-slot", "store-slot", "lengths-stored", "lengths-returned", "topological", "complete", "layout-from-sort"},
-    "C13": {"unpack-slot", "store-slot", "use-before-def", "lengths-stored", "lengths-returned", "return-order"},
+    "C12": {"use-before-def", "unpack-slot", "store-slot", "lengths-stored", "lengths-returned", "topological", "complete"},
+    "C13": {"unpack-slot", "store-slot", "use-before-def", "lengths-stored", "lengths-returned"},
     "C19": {"redefinition"},
 }
 BACKENDS_OF = {"C02": ("c",), "C03": ("jax",), "C01": ("python",), "C05": ("python", "jax", "c")}
@@ -125,7 +125,8 @@ def run(chk: core.Check, pid: str, extra_models=(), backends=None, schemes=None)
                     chk.violation(f"{pid}:trace:sort:{rule}:{g['model']}", {"trace": g["id"], "order": g["order"][:50]},
                                   f"sort_assignments of {g['model']}: rule {rule} violated")
         chk.traces += len(sorts)
-    info = {"emit_traces": len(alltr), "emit_traces_accepted": accepted, "statements": sum(len(t["stmts"]) for t in alltr),
+    info = {"emit_traces": len(alltr), "emit_traces_accepted": accepted, "emit_traces_uninterpretable": res.uninterpretable[:10],
+            "emit_traces_uninterpretable_n": len(res.uninterpretable), "notes_by_rule": res.note_counts, "statements": sum(len(t["stmts"]) for t in alltr),
             "sort_traces": len(sorts), "scheme_decisions_logged": len(alldec), "conformance_notes": notes[:10],
             "models": sorted({t["model"] for t in alltr}), "backends": list(backends)}
     # binding self-test: corrupted traces must be rejected (thorough tier; never fails the check)
@@ -167,7 +168,7 @@ def run_split(chk: core.Check, pid: str):
                 cg.missing_values(dict(other.missing_variables))
             for ev in rec.events:
                 if ev["ev"] == "Emit":
-                    alltr.extend(traces.emit_event_to_traces(ev, f"ORdmm_Land-{name}", mon))
+                    alltr.extend(traces.emit_event_to_traces(ev, f"ORdmm_Land-{name}", mon))  # assignment names: from the event
     res, verdicts = traces.validate_emit_traces(alltr, chk.nproc)
     chk.add_tlc(res)
     rules = RULES_OF[pid]
